@@ -89,7 +89,8 @@ InitSt ==
     pc |-> "idle", lflags |-> 0, pol |-> "exact", iters |-> 0, tmo |-> 0, n |-> 0, cnt1 |-> 0,
     qi |-> 0, blocked |-> FALSE, forced |-> FALSE, cblog |-> <<>>, ret |-> 0, gctr |-> 0,
     sigleft |-> 0, cur |-> 0, done |-> FALSE, wi |-> 0, wq |-> <<>>,
-    fuzz |-> FALSE ]   \* the maxima depend on the (unspecified) order of a tie that occurred
+    fuzz |-> FALSE,
+    amb |-> FALSE ]    \* a harness-forced break cut a tie group: what ran depends on the unspecified tie order   \* the maxima depend on the (unspecified) order of a tie that occurred
 
 ----------------------------------------------------------------------------
 (* Queue primitives: the event_queue_insert_* / remove_* functions with their
@@ -282,7 +283,7 @@ Obs(S, r) ==
     na |-> NAct(S), ne |-> S.cnt,
     ma |-> IF S.fuzz THEN [_any |-> TRUE] ELSE S.actmax, me |-> IF S.fuzz THEN [_any |-> TRUE] ELSE S.cntmax,
     gb |-> IF S.brk THEN 1 ELSE 0, ge |-> IF S.term THEN 1 ELSE 0 ]
-LoopObs(S) == [Obs(S, S.ret) EXCEPT !.r = S.ret] @@ [cb |-> S.cblog, bl |-> IF S.blocked THEN 1 ELSE 0, it |-> S.iters]
+LoopObs(S) == [Obs(S, S.ret) EXCEPT !.r = S.ret] @@ [cb |-> S.cblog, bl |-> IF S.blocked THEN 1 ELSE 0, it |-> S.iters, amb |-> IF S.amb THEN 1 ELSE 0]
 
 ----------------------------------------------------------------------------
 (* Outer API actions *)
@@ -368,7 +369,7 @@ ApiLoop ==
        /\ (pol # "exact" => "pol" \in Acts)
        /\ (f \in {0, 4, 5, 3} => "flags" \in Acts)
        /\ st' = [st EXCEPT !.pc = "top", !.lflags = f, !.pol = pol, !.iters = 0, !.brk = FALSE, !.term = FALSE,
-                           !.blocked = FALSE, !.forced = FALSE, !.cblog = <<>>, !.ret = 0, !.done = FALSE]
+                           !.blocked = FALSE, !.forced = FALSE, !.cblog = <<>>, !.ret = 0, !.done = FALSE, !.amb = FALSE]
        /\ UNCHANGED hist
 
 RECURSIVE MakeLaterActive(_)
@@ -479,7 +480,11 @@ PickQueue ==
 LimitFor(S) == IF S.runprio < LimitPrio \/ MaxCb = 0 THEN 1000000 ELSE MaxCb
 
 (* after one callback returned inside event_process_active_single_queue *)
-AfterCb(S) ==
+AfterCb(S0) ==
+  LET cut == S0.brk /\ (S0.forced \/ S0.blocked) /\ S0.cur # 0 /\ S0.aq[S0.runprio] # <<>>
+             /\ S0.ev[S0.cur].g # <<>> /\ S0.ev[Head(S0.aq[S0.runprio])].g = S0.ev[S0.cur].g
+      S == [S0 EXCEPT !.amb = @ \/ cut]
+  IN
   IF S.brk THEN EndProcess(S, -1)
   ELSE IF S.cnt1 >= LimitFor(S) \/ S.cont \/ S.aq[S.runprio] = <<>>
        THEN (IF S.cnt1 > 0 THEN EndProcess([S EXCEPT !.n = S.cnt1], S.cnt1)
